@@ -37,6 +37,7 @@ func NewSolver() *Solver {
 	}
 	s := &Solver{cmd: cmd, in: in, out: bufio.NewReader(out), emitted: map[int]bool{}, cache: map[int]string{}, log: &strings.Builder{}}
 	s.send("(set-option :produce-models true)")
+	s.send("(set-option :timeout 2000)")
 	return s
 }
 
